@@ -83,7 +83,8 @@ RunInit(out, e) ==
    bigSeen |-> FALSE,           \* an argument at the integer limits has been passed in this run
    faulted |-> FALSE,
    crashed |-> FALSE,           \* the current directory is a post-crash image not yet reopened
-   evmoved |-> FALSE,           \* a boundary update happened since the pending call began
+   evmoved |-> FALSE,           \* a boundary update happened (or was in flight) since the pending call began
+   evfly |-> FALSE,             \* the worker announced a boundary update and has not been seen past it yet
    wactive |-> FALSE,           \* worker events seen since the last idle point
    dropAcked |-> FALSE,
    out |-> [out EXCEPT !.cnt.runs = @ + 1]]
@@ -143,7 +144,7 @@ FsStep(m0, e) ==
   LET m == Cnt(m0, "fs")
       j == FileIdx(m, e.ck)
       isw == e.t # "c"
-      m1 == IF isw THEN [m EXCEPT !.wactive = TRUE] ELSE m
+      m1 == IF isw THEN [m EXCEPT !.wactive = TRUE, !.evfly = FALSE] ELSE m
   IN
   IF e.ck < 0 THEN m1       \* LOCK file and foreign files: handled by lock events
   ELSE
@@ -187,7 +188,8 @@ FsStep(m0, e) ==
              \* (c) what made it obsolete is durable in the files that remain
              m5 == IF ~m4.tainted /\ m4.sizeok /\ obs # <<>> /\ ~DurableThrough(m4, hi, obs[1].at)
                    THEN ViolKeep(m4, "C08", "unlink_before_purge_durable", e,
-                                 [ck |-> e.ck, at |-> obs[1].at, files |-> UndurableFiles(m4, hi, obs[1].at)])
+                                 [ck |-> e.ck, at |-> obs[1].at, files |-> UndurableFiles(m4, hi, obs[1].at),
+                                  after_failed_sync |-> \E x \in 1..Len(m4.files) : m4.files[x].sf])
                    ELSE m4
              \* (d) the remaining files must start with a snapshot: the next file's head is durable
              m6 == m5
@@ -247,6 +249,16 @@ CheckCache(m, e, o, afterAppend) ==
                      [n |-> o.cache.n, sz |-> o.cache.sz, ev |-> o.cache.sev, res |-> o.cache.res])
        ELSE m
 
+\* Known finding F5 (see known_findings.json): a live entry that was journalled AFTER the chunk the eviction
+\* boundary belongs to had been closed nevertheless compares <= the boundary (possible only after a truncation
+\* followed by an append with a lower term), so it is evictable although it is not in a synced closed chunk.
+F5Class(m, sev) ==
+  LET hs == {k \in 1..Len(m.heads) : m.heads[k].st.l = sev} IN
+  /\ sev # None /\ hs # {} /\ m.sizeok
+  /\ LET cstar == SetMin({m.heads[k].ck : k \in hs}) IN
+     \E j \in 1..Len(m.loc) : /\ m.loc[j].off >= cstar /\ HasIdx(m.ref, m.loc[j].i)
+                              /\ Le(IdAt(m.ref, m.loc[j].i), sev)
+
 \* which property a wrong read / state speaks about, by context
 ReadProp(m) ==
   IF m.cfg.ci >= 0 \/ m.cfg.cc >= 0 \/ m.wactive THEN "C07"
@@ -255,11 +267,13 @@ ReadProp(m) ==
 
 CheckView(m, e, o, prop) ==
   IF o.esr # "ok"
-  THEN Viol(m, IF prop \in {"C01", "C06"} THEN ReadProp(m) ELSE prop, "read_error", e, [esr |-> o.esr, want |-> m.ref.log])
+  THEN Viol(m, IF prop \in {"C01", "C06"} THEN ReadProp(m) ELSE prop, "read_error", e,
+            [esr |-> o.esr, want |-> m.ref.log, f5 |-> F5Class(m, o.cache.sev)])
   ELSE IF o.st # RefSt(m.ref)
   THEN Viol(m, prop, "state_mismatch", e, [got |-> o.st, want |-> RefSt(m.ref)])
   ELSE IF o.es # m.ref.log
-  THEN Viol(m, IF prop \in {"C01", "C06"} THEN ReadProp(m) ELSE prop, "entries_mismatch", e, [got |-> o.es, want |-> m.ref.log])
+  THEN Viol(m, IF prop \in {"C01", "C06"} THEN ReadProp(m) ELSE prop, "entries_mismatch", e,
+            [got |-> o.es, want |-> m.ref.log, f5 |-> F5Class(m, o.cache.sev)])
   ELSE m
 
 -----------------------------------------------------------------------------
@@ -326,7 +340,7 @@ ArgBig(op, a) ==
     [] OTHER -> FALSE
 
 BeginStep(m, e) ==
-  [m EXCEPT !.pend = [op |-> e.op, args |-> e.args], !.newck = <<>>, !.evmoved = FALSE,
+  [m EXCEPT !.pend = [op |-> e.op, args |-> e.args], !.newck = <<>>, !.evmoved = m.evfly,
             !.bigSeen = @ \/ ArgBig(e.op, e.args)]
 
 \* rotation rule (C11): after an accepted write the open chunk is below both limits or is a bare head
@@ -515,17 +529,17 @@ ReadStep(m0, e) ==
   LET m == Cnt(m0, "reads") IN
   IF e.rc = "panic" THEN Viol(m, "C16", "panic", e, [op |-> "read", from |-> e.from, to |-> e.to, res |-> e.res, at_integer_limit |-> m.bigSeen])
   ELSE IF e.from > e.to /\ e.rc = "ok" /\ e.es = <<>> THEN m
-  ELSE IF e.rc # "ok" THEN Viol(m, ReadProp(m), "read_error", e, [from |-> e.from, to |-> e.to, res |-> e.res])
+  ELSE IF e.rc # "ok" THEN Viol(m, ReadProp(m), "read_error", e, [from |-> e.from, to |-> e.to, res |-> e.res, f5 |-> F5Class(m, m.pre.ev)])
   ELSE IF e.es # Read(m.ref, e.from, e.to)
-       THEN Viol(m, ReadProp(m), "read_mismatch", e, [from |-> e.from, to |-> e.to, got |-> e.es, want |-> Read(m.ref, e.from, e.to)])
+       THEN Viol(m, ReadProp(m), "read_mismatch", e, [from |-> e.from, to |-> e.to, got |-> e.es, want |-> Read(m.ref, e.from, e.to), f5 |-> F5Class(m, m.pre.ev)])
        ELSE m
 
 IterStep(m0, e) ==
   LET m == Cnt(m0, "reads") IN
   IF e.rc = "panic" THEN Viol(m, "C16", "panic", e, [op |-> "iter"])
-  ELSE IF e.rc # "ok" THEN Viol(m, "C07", "iter_error", e, [res |-> e.res])
+  ELSE IF e.rc # "ok" THEN Viol(m, "C07", "iter_error", e, [res |-> e.res, f5 |-> F5Class(m, m.pre.ev)])
   ELSE IF e.es # m.ref.log \/ e.st # RefSt(m.ref)
-       THEN Viol(m, "C07", "iter_mismatch", e, [got |-> e.es, want |-> m.ref.log])
+       THEN Viol(m, "C07", "iter_mismatch", e, [got |-> e.es, want |-> m.ref.log, f5 |-> F5Class(m, m.pre.ev)])
        ELSE m
 
 \* C11: the files, read in name order, are head snapshots plus the accepted writes in call order
@@ -616,8 +630,11 @@ LockTryStep(m0, e) ==
   ELSE IF ~e.owned /\ e.rc # "ok" /\ ~m.faulted THEN ViolKeep(m, "C13", "free_directory_refused", e, [kind |-> e.kind, res |-> e.res])
   ELSE m
 
+\* the `set_ev` point is logged BEFORE the boundary is assigned; the assignment is certainly over when the
+\* same worker is seen at its next FS call or point
 PtStep(m, e) ==
-  IF e.p = "set_ev" THEN [m EXCEPT !.evmoved = TRUE, !.wactive = TRUE] ELSE [m EXCEPT !.wactive = TRUE]
+  IF e.p = "set_ev" THEN [m EXCEPT !.evmoved = TRUE, !.evfly = TRUE, !.wactive = TRUE]
+  ELSE [m EXCEPT !.wactive = TRUE, !.evfly = FALSE]
 
 \* C14: after the acknowledged drop nothing changes the directory any more
 FsAfterDrop(m, e) ==
@@ -661,5 +678,14 @@ MonStep(m0, e) ==
     [] e.e = "fault" -> [m EXCEPT !.faulted = TRUE]
     [] OTHER -> m
 
-MonInit == RunInit(Out0, [run |-> 0, mode |-> "none"])
+MonInit == [RunInit(Out0, [run |-> 0, mode |-> "none"]) EXCEPT !.out.cnt.runs = 0]
+
+\* The recorded known findings (kept in step with /verif/known_findings.json): a violation record that
+\* satisfies one of these narrow predicates is a defect of the code that is already on file.
+KnownFinding(v) ==
+  \/ /\ v.p = "C07" /\ v.k \in {"read_error", "entries_mismatch", "read_mismatch", "iter_error", "iter_mismatch"}
+     /\ v.d.f5                                                                                   \* F5
+  \/ /\ v.p = "C16" /\ v.k = "panic" /\ v.d.at_integer_limit
+     /\ v.d.res = "panic:attempt to add with overflow"                                           \* F2c
+  \/ /\ v.p = "C05" /\ v.k = "open_failed_after_crash" /\ v.d.cls = "gap" /\ v.d.short_pred   \* F4
 =============================================================================
